@@ -230,3 +230,43 @@ pub fn ca_matches(ca: &crate::access::ComponentAccess, components: &[u32]) -> bo
 pub fn ca_conflicts(ca: &crate::access::ComponentAccess) -> Vec<u32> {
     ca.collect_conflicts().into_iter().map(|c| c.0).collect()
 }
+
+/// `SparseMap<u32, u32>` behind a public face.
+#[derive(Clone, Debug, Default)]
+pub struct SparseMapU32(crate::sparse_map::SparseMap<u32, u32>);
+
+impl SparseMapU32 {
+    pub fn new() -> Self {
+        Self(crate::sparse_map::SparseMap::new())
+    }
+
+    /// Panics like the real one for `u32::MAX` as key.
+    pub fn insert(&mut self, key: u32, value: u32) -> Option<u32> {
+        self.0.insert(key, value)
+    }
+
+    pub fn remove(&mut self, key: u32) -> Option<u32> {
+        self.0.remove(key)
+    }
+
+    pub fn get(&self, key: u32) -> Option<u32> {
+        self.0.get(key).copied()
+    }
+
+    pub fn keys(&self) -> Vec<u32> {
+        self.0.keys().to_vec()
+    }
+
+    pub fn values(&self) -> Vec<u32> {
+        self.0.values().to_vec()
+    }
+
+    pub fn shrink_to_fit(&mut self) {
+        self.0.shrink_to_fit()
+    }
+
+    /// The raw `sparse` array (`u32::MAX` = vacant).
+    pub fn sparse(&self) -> Vec<u32> {
+        self.0.verif_sparse().into_iter().map(|i| i as u32).collect()
+    }
+}
